@@ -353,6 +353,9 @@ func (r *FnRun) monitorCall(fr *Frame, fn *ssa.Function, cc *ssa.CallCommon, arg
 		sl := r.stateLoc(post, m)
 		post.vars[m.StateVar] = EV{Loc: sl, Ty: types.NewPointer(pathType(sl))}
 		for _, en := range c.Ensures {
+			if clauseIsInternal(c, en.E, 0) {
+				continue
+			}
 			if t, ok := post.tryBool(en.E); ok {
 				fr.assume(t)
 			}
@@ -524,17 +527,19 @@ func (e *Engine) DisciplineUnit(m *Monitor) *FnRun {
 // can change the protected state (lock discipline, non-reentrant mutex).
 // markEscaped: the value (a box address, or a closure capturing boxes) becomes reachable by other code.
 func (fr *Frame) markEscaped(v Val) {
-	if fr.ownBoxes == nil || v.T.S == "" {
+	if v.T.S == "" {
 		return
 	}
-	if _, ok := fr.ownBoxes[v.T.S]; ok {
-		delete(fr.ownBoxes, v.T.S)
-		return
-	}
-	if ci, ok := fr.R.closures[v.T.S]; ok {
-		for _, b := range ci.bindings {
-			if b.T.S != "" {
-				delete(fr.ownBoxes, b.T.S)
+	for f := fr; f != nil; f = f.parent {
+		if f.ownBoxes == nil {
+			continue
+		}
+		delete(f.ownBoxes, v.T.S)
+		if ci, ok := fr.R.closures[v.T.S]; ok {
+			for _, b := range ci.bindings {
+				if b.T.S != "" {
+					delete(f.ownBoxes, b.T.S)
+				}
 			}
 		}
 	}
@@ -551,11 +556,18 @@ func (fr *Frame) havocAllHeap() {
 		v Term
 	}
 	var boxes []kept
-	for _, l := range fr.ownBoxes {
-		if fr.st.vol[l.Ref.S] {
-			continue
+	for f := fr; f != nil; f = f.parent {
+		for _, a := range f.pendingArgs {
+			fr.markEscaped(a)
 		}
-		boxes = append(boxes, kept{l, fr.load(l)})
+	}
+	for f := fr; f != nil; f = f.parent {
+		for _, l := range f.ownBoxes {
+			if fr.st.vol[l.Ref.S] {
+				continue
+			}
+			boxes = append(boxes, kept{l, fr.load(l)})
+		}
 	}
 	defer func() {
 		for _, k := range boxes {
